@@ -600,3 +600,112 @@ def der_writer_rows(check, repo):
     check.ob("K", "K|der.writers", not wrong, mod.path, fn0.lineno,
              extracted=("%d of %d rows differ: " % (len(wrong), n) + "; ".join(wrong[:3])) if wrong else "%d encodings equal to X.690 DER (short form up to 127 content octets, minimal long form above; minimal two's-complement INTEGERs; base-128 arcs)" % n,
              expected="canonical DER: definite length in the shortest form, INTEGER contents minimal, OID arcs in base 128")
+
+
+def pem_roundtrip_rows(check, repo):
+    """PEM.decode(PEM.encode(data, marker, passphrase), passphrase) == (data, marker, encrypted?) with and without the
+    legacy encryption, for data lengths on both sides of the cipher block (0, 7, 8, 9, 16) and of the 48-byte base64
+    line (47, 48, 49, 96, 100).  The real encode / decode / pad / unpad / PBKDF1 / _EVP_BytesToKey code is interpreted;
+    MD5 is hashlib's, 3DES-CBC a keyed 64-bit Feistel bijection in CBC mode, base64 the checker's binascii."""
+    import hashlib
+    from ..absval import ABuiltin
+    PM = "Crypto.IO.PEM"
+    mod = repo.module(PM)
+
+    def toy8(key, blk, inv=False):
+        L, R = blk[:4], blk[4:]
+        for r in ((3, 2, 1, 0) if inv else (0, 1, 2, 3)):
+            if inv:
+                L, R = bytes(x ^ y for x, y in zip(R, hashlib.sha256(b"P%d" % r + key + L).digest()[:4])), L
+            else:
+                L, R = R, bytes(x ^ y for x, y in zip(L, hashlib.sha256(b"P%d" % r + key + R).digest()[:4]))
+        return L + R
+
+    def world():
+        def m_md5(i, a, kw, st, node):
+            o = i.new_obj(st, label="md5")
+            d = a[0] if a else b""
+            st.heap[o.ident].update({"kind": "md5", "data": bytes(d) if isinstance(d, (bytes, bytearray)) else None, "digest_size": 16})
+            return o
+
+        def m_digest(i, base, a, kw, st, node):
+            h = st.heap.get(getattr(base, "ident", -1), {})
+            return hashlib.md5(h["data"]).digest() if h.get("kind") == "md5" and isinstance(h.get("data"), bytes) else ABytes(16)
+
+        def m_new(i, base, a, kw, st, node):
+            h = st.heap.get(getattr(base, "ident", -1), {})
+            return m_md5(i, a, kw, st, node) if h.get("kind") == "md5" else UNK
+
+        def m_update(i, base, a, kw, st, node):
+            h = st.heap.get(getattr(base, "ident", -1), {})
+            if h.get("kind") == "md5" and isinstance(h.get("data"), bytes) and a and isinstance(a[0], (bytes, bytearray)):
+                h["data"] += bytes(a[0])
+            return base
+
+        def m_des3(i, a, kw, st, node):
+            key, mode, iv = (list(a) + [None] * 3)[:3]
+            if not isinstance(key, (bytes, bytearray)) or len(key) != 24 or mode != 2 or not isinstance(iv, (bytes, bytearray)) or len(iv) != 8:
+                return UNK
+            o = i.new_obj(st, label="des3")
+            st.heap[o.ident].update({"kind": "cbc8", "key": bytes(key), "reg": bytes(iv), "block_size": 8})
+            return o
+
+        def m_crypt(dec):
+            def f(i, base, a, kw, st, node):
+                h = st.heap.get(getattr(base, "ident", -1), {})
+                d = a[0] if a else None
+                if h.get("kind") != "cbc8" or not isinstance(d, (bytes, bytearray)):
+                    return ABytes(None)
+                if len(d) % 8:
+                    i._diverged = i.do_raise("ValueError", st, node)
+                    return UNK
+                out = b""
+                for o in range(0, len(d), 8):
+                    blk = bytes(d[o:o + 8])
+                    if dec:
+                        out += bytes(x ^ y for x, y in zip(toy8(h["key"], blk, inv=True), h["reg"]))
+                        h["reg"] = blk
+                    else:
+                        h["reg"] = toy8(h["key"], bytes(x ^ y for x, y in zip(blk, h["reg"])))
+                        out += h["reg"]
+                return out
+            return f
+        it = Interp(repo, max_depth=10, budget=6000000,
+                    extra_models={"Crypto.Hash.MD5.new": m_md5, "Crypto.Cipher.DES3.new": m_des3, "vstat.salt": lambda i, a, kw, st, node: bytes(range(0xA0, 0xA0 + (a[0] if a and isinstance(a[0], int) else 8)))},
+                    method_models={"digest": m_digest, "new": m_new, "update": m_update, "encrypt": m_crypt(False), "decrypt": m_crypt(True)})
+        it.unroll_limit = 2000
+        it.for_limit = 400
+        return it
+    wrong = []
+    n = 0
+    for pw in (None, b"passphrase"):
+        for L in (0, 1, 7, 8, 9, 16, 47, 48, 49, 96, 100):
+            if L == 0 and pw is None:
+                continue
+            data = bytes((0x21 + 3 * i) & 0xFF for i in range(L))
+            it = world()
+            res = it.run(mod, repo.func(mod, "encode"), {"data": data, "marker": "TEST KEY", "passphrase": pw, "randfunc": ABuiltin("vstat.salt")})
+            r = res.returns()
+            n += 1
+            if len(r) != 1 or res.raises() or not isinstance(r[0].value, str):
+                wrong.append("encode(%d bytes%s): %d exits, raises %s" % (L, ", passphrase" if pw else "", len(r), res.raise_classes()))
+                continue
+            pem = r[0].value
+            it = world()
+            res = it.run(mod, repo.func(mod, "decode"), {"pem_data": pem, "passphrase": pw})
+            r = res.returns()
+            got = r[0].value if len(r) == 1 and not res.raises() else ("%d exits" % len(r), res.raise_classes())
+            want = (data, "TEST KEY", bool(pw))
+            if not (isinstance(got, tuple) and len(got) == 3 and bytes(got[0]) == data and got[1] == "TEST KEY" and got[2] is bool(pw)):
+                wrong.append("decode(encode(%d bytes%s)) = %r" % (L, ", passphrase" if pw else "", got if not isinstance(got, tuple) or len(got) != 3 else (bytes(got[0])[:12], got[1], got[2])))
+            if pw:
+                it = world()
+                res = it.run(mod, repo.func(mod, "decode"), {"pem_data": pem, "passphrase": b"another passphrase"})
+                n += 1
+                r2 = res.returns()
+                if r2 and not res.raises() and isinstance(r2[0].value, tuple) and bytes(r2[0].value[0]) == data:
+                    wrong.append("decode with another passphrase returns the data (%d bytes)" % L)
+    fn = repo.func(mod, "encode")
+    check.ob("K-pw", "K-pw|pem.roundtrip", not wrong, mod.path, fn.lineno,
+             extracted=("%d of %d rows differ: " % (len(wrong), n) + "; ".join(wrong[:3])) if wrong else "%d rows: decode(encode(x)) == x with and without a passphrase, for lengths around the cipher block and the base64 line" % n,
+             expected="PEM armour (RFC 1421 / OpenSSL legacy encryption) round-trips: PKCS#7 padding is always added before encryption, key derivation agrees on both sides")
